@@ -159,7 +159,8 @@ def replay(rec):
     from bldfm.plotting._geo import xy_to_latlon
 
     m = rec.get("model", {})
-    refs = [(m.get("ref_lat", 50.0), m.get("ref_lon", 11.0)), (0.0, 11.0), (50.0, 0.0), (-35.0, 179.99), (60.0, -180.0), (10.0, 180.0), (0.0, 0.0)]
+    refs = [(m.get("ref_lat", 50.0), m.get("ref_lon", 11.0)), (0.0, 11.0), (50.0, 0.0), (-35.0, 179.99), (60.0, -180.0), (10.0, 180.0), (0.0, 0.0),
+            (51.4779, -0.0013), (-12.0, 0.004)]  # domains straddling the Greenwich meridian
     bad = []
     for rlat, rlon in refs:
         if not (-89 < rlat < 89):
